@@ -50,7 +50,9 @@ class C09(Prop):
             nsh = rows + rng.choice((-1, 1))          # length mismatch: must be rejected
         n = max(nsh, 0) * (1 if kern.startswith("roll") else rows)
         return {"path": "kernel", "kern": kern, "rows": rows, "cols": cols, "nsh": max(nsh, 0),
-                "sh": [rng.randint(-lim, lim) for _ in range(n)], "C": rows, "n": cols, "dm": 0.0,
+                "sh": (lambda mode: [rng.randint(-lim, lim) if mode == 0 else rng.randint(1, max(1, lim)) * (1 if mode == 1 else -1)
+                                    for _ in range(n)])(rng.choice((0, 0, 1, 2))),      # mixed / all positive / all negative
+                "C": rows, "n": cols, "dm": 0.0,
                 "foff": -1.0, "fch1": 1000.0, "tsamp": 1e-3, "ref": "ch1", "ndm": ndm, "s": 0, "g": 1}
 
     def _observe_kernel(self, case):
@@ -109,7 +111,7 @@ class C09(Prop):
             fch1 = fch1 - abs(foff) * C
         tsamp = rng.choice((1e-3, 64e-6, 5e-4))
         dm = rng.choice((0.0, 1.0, 3.5, 10.0, 15.0, 25.0, 40.0, -2.0, -10.0, -15.0))
-        ref = rng.choice(("ch1", "ch1", "max", "min", "center", "num"))
+        ref = rng.choice(("ch1", "ch1", "max", "min", "center", "num", "num-above", "num-below"))
         n = rng.choice((8, 16, 40, 100)) if path != "read_dedisp" else rng.choice((1, 2, 3, 8, 16, 40))
         return {"path": path, "C": C, "foff": foff, "fch1": fch1, "tsamp": tsamp, "dm": dm, "ref": ref, "n": n,
                 "ndm": rng.choice((1, 3, 3, 8, 33, 64)), "s": rng.choice((0, 2)), "g": rng.choice((3, 7, 64))}
@@ -140,7 +142,11 @@ class C09(Prop):
         return s + case["n"] + max(0, max(d)) + 3, s
 
     def _ref(self, case, h):
-        return {"num": float(h.fch1 + 0.37 * h.foff * h.nchans)}.get(case["ref"], case["ref"])
+        # numeric references: inside the band (delays of both signs), and OUTSIDE it on either side (every delay of
+        # one sign, none zero: e.g. a sub-band dedispersed to the top of the full band)
+        lo, hi = min(h.fch1, h.fch1 + h.foff * (h.nchans - 1)), max(h.fch1, h.fch1 + h.foff * (h.nchans - 1))
+        return {"num": float(h.fch1 + 0.37 * h.foff * h.nchans), "num-above": float(hi + 3 * abs(h.foff) + 7.0),
+                "num-below": float(max(lo - 3 * abs(h.foff) - 7.0, 0.5 * lo))}.get(case["ref"], case["ref"])
 
     def observe(self, case):
         from sigpyproc.block import FilterbankBlock
